@@ -44,6 +44,18 @@ CHECKS["C03"] = dict(
          "swallowed by TaskManager and not observed; routing tables are empty in the correspondence part.",
     technique="Coq proof (induction over formats; case analysis of the receive path) + differential correspondence", design="5/C03")
 
+CHECKS["C20"] = dict(
+    text="Coq theorems over a model of VariablePayload's interpreted methods and of the three code generators of vp_compile: for "
+         "every well-formed definition (any formats incl. bits/nested/lists, any hooks) the generated to_pack_list equals the "
+         "interpreted pack list, the generated from_unpack_list builds the same instance from every decoded argument list, the "
+         "generated __init__ assigns the same fields from positional or keyword arguments, omitted arguments take the definition's "
+         "defaults (under the checked render-faithfulness hypothesis). The generator model is compared syntactically with the "
+         "source text the real generators emit, for every shipped definition and generated ones, on every run; plain, compiled "
+         "and dataclass classes are built from each definition and compared on bytes and decoded fields with the real Serializer.",
+    note="Trusted: Coq kernel; CPython call binding/compile/exec/dataclasses mean what the evaluator of the generated-code AST "
+         "says (validated behaviourally); model M20_vp; the wire level is C02's.",
+    technique="Coq proof (induction over definitions) + syntactic comparison of generated code + behavioural oracle", design="5/C20")
+
 NOT_APPLICABLE = {}
 
 
